@@ -21,6 +21,7 @@ void vf_disarm(void);
 extern int vf_faults_fired;      /* how many armed faults fired */
 extern const void *vf_fault_site[2]; /* return address of the failed call */
 extern const char *vf_fault_kind[2];
+extern void *vf_fault_stack[10]; extern int vf_fault_nframes; /* call stack of the first failed allocation */
 size_t vf_block_size(const void *p); /* (size_t)-1 if unknown */
 /* first live block (in serial order) for leak witnesses; returns 0 if none */
 int vf_first_live(const void **p, size_t *size, const void **site, unsigned long *serial);
